@@ -53,18 +53,38 @@ func isWGMethod(in ssa.Instruction, name string) (ssa.CallInstruction, ssa.Value
 }
 
 // doneDefer: in is `defer wg.Done()` or `defer func(){ ...; wg.Done() }()` for the WaitGroup cell wg.
+// wgAliases: parameters of separate functions that receive the address of the WaitGroup under examination (`go ec.work(…, &wg)`).
+var wgAliases = map[ssa.Value]ssa.Value{}
+
+// sameWG: recv denotes the WaitGroup wg — the cell itself, or a parameter a carrier function receives its address in.
+func sameWG(recv, wg ssa.Value) bool {
+	r := an.RootAlloc(recv)
+	if r == an.RootAlloc(wg) {
+		return true
+	}
+	if ld, ok := r.(*ssa.UnOp); ok { // *g where g is the parameter's spill cell
+		r = an.RootAlloc(ld.X)
+	}
+	for _, d := range append([]ssa.Value{r}, an.Defs(recv)...) {
+		if a, ok := wgAliases[d]; ok && a == an.RootAlloc(wg) {
+			return true
+		}
+	}
+	return false
+}
+
 func isDoneDefer(in ssa.Instruction, wg ssa.Value) bool {
 	d, ok := in.(*ssa.Defer)
 	if !ok {
 		return false
 	}
-	if _, recv := isWGMethod(d, "Done"); recv != nil && an.RootAlloc(recv) == an.RootAlloc(wg) {
+	if _, recv := isWGMethod(d, "Done"); recv != nil && sameWG(recv, wg) {
 		return true
 	}
 	if mc, ok := d.Call.Value.(*ssa.MakeClosure); ok {
 		for _, b := range mc.Fn.(*ssa.Function).Blocks {
 			for _, x := range b.Instrs {
-				if _, recv := isWGMethod(x, "Done"); recv != nil && an.RootAlloc(recv) == an.RootAlloc(wg) {
+				if _, recv := isWGMethod(x, "Done"); recv != nil && sameWG(recv, wg) {
 					return true
 				}
 			}
@@ -105,11 +125,32 @@ func withScenario(fns []*ssa.Function, cond ssa.Value, branch bool, f func()) {
 				}
 				g := an.FactOf(an.Guard{Cond: iff.Cond, Branch: true})
 				base := an.FactOf(an.Guard{Cond: cond, Branch: true})
-				if g.Op != token.ILLEGAL || base.Op != token.ILLEGAL || !an.SameVar(g.X, base.X) {
+				var trueMeans bool // true edge == (cond is true)
+				switch {
+				case g.Op == token.ILLEGAL && base.Op == token.ILLEGAL && an.SameVar(g.X, base.X):
+					trueMeans = g.Neg == base.Neg
+				case g.Op != token.ILLEGAL && base.Op != token.ILLEGAL:
+					// the same comparison written again (`len(v) != 1` … `len(v) == 1`): related when the operands are the
+					// same expressions and the operator is the same or its exact negation
+					same := an.SameExpr(g.X, base.X) && an.SameExpr(g.Y, base.Y)
+					op := g.Op
+					if !same && an.SameExpr(g.X, base.Y) && an.SameExpr(g.Y, base.X) {
+						same = true
+						op = mirrorOp(op)
+					}
+					if !same {
+						continue
+					}
+					if op == base.Op {
+						trueMeans = true
+					} else if op == negOp(base.Op) {
+						trueMeans = false
+					} else {
+						continue
+					}
+				default:
 					continue
 				}
-				// polarity of the true edge relative to cond
-				trueMeans := g.Neg == base.Neg // true edge == (cond is true)
 				var dead *ssa.BasicBlock
 				if trueMeans == branch {
 					dead = b.Succs[1]
@@ -187,6 +228,36 @@ func c05WG(c *Ctx) {
 
 func (c *Ctx) checkWG(fn *ssa.Function, wg *ssa.Alloc) (bool, string, string) {
 	fns := an.WithClosures(fn)
+	// separate functions/methods of the same package that are handed &wg (`go ec.resolveInto(…, &wg)`): their bodies are
+	// examined like closures, with the receiving parameter standing for the WaitGroup
+	for _, f := range an.WithClosures(fn) {
+		for _, b := range f.Blocks {
+			for _, in := range b.Instrs {
+				ci, ok := in.(ssa.CallInstruction)
+				if !ok {
+					continue
+				}
+				callee := ci.Common().StaticCallee()
+				if callee == nil || len(callee.Blocks) == 0 || callee.Pkg != fn.Pkg || callee.Parent() != nil {
+					continue
+				}
+				for i, a := range ci.Common().Args {
+					if an.RootAlloc(a) == ssa.Value(wg) && i < len(callee.Params) && an.NamedIs(callee.Params[i].Type(), "sync", "WaitGroup") {
+						wgAliases[callee.Params[i]] = wg
+						already := false
+						for _, x := range fns {
+							if x == callee {
+								already = true
+							}
+						}
+						if !already {
+							fns = append(fns, an.WithClosures(callee)...)
+						}
+					}
+				}
+			}
+		}
+	}
 	var adds, waits []ssa.CallInstruction
 	var events []doneEvent
 	carrier := map[*ssa.Function]bool{}
@@ -194,17 +265,17 @@ func (c *Ctx) checkWG(fn *ssa.Function, wg *ssa.Alloc) (bool, string, string) {
 	for _, f := range fns {
 		for _, b := range f.Blocks {
 			for _, in := range b.Instrs {
-				if call, recv := isWGMethod(in, "Add"); recv != nil && an.RootAlloc(recv) == ssa.Value(wg) {
+				if call, recv := isWGMethod(in, "Add"); recv != nil && sameWG(recv, wg) {
 					adds = append(adds, call)
 				}
-				if call, recv := isWGMethod(in, "Wait"); recv != nil && an.RootAlloc(recv) == ssa.Value(wg) {
+				if call, recv := isWGMethod(in, "Wait"); recv != nil && sameWG(recv, wg) {
 					waits = append(waits, call)
 				}
 				if isDoneDefer(in, wg) {
 					carrier[f] = true
 				}
 				if _, isCall := in.(*ssa.Call); isCall && f != fn {
-					if _, recv := isWGMethod(in, "Done"); recv != nil && an.RootAlloc(recv) == ssa.Value(wg) {
+					if _, recv := isWGMethod(in, "Done"); recv != nil && sameWG(recv, wg) {
 						carrier[f] = true
 						direct[f] = true
 					}
@@ -242,7 +313,7 @@ func (c *Ctx) checkWG(fn *ssa.Function, wg *ssa.Alloc) (bool, string, string) {
 				if callee != nil && carrier[callee] {
 					events = append(events, doneEvent{in, callee})
 				}
-				if _, recv := isWGMethod(in, "Done"); recv != nil && an.RootAlloc(recv) == ssa.Value(wg) {
+				if _, recv := isWGMethod(in, "Done"); recv != nil && sameWG(recv, wg) {
 					if _, isCall := in.(*ssa.Call); isCall {
 						events = append(events, doneEvent{in, nil})
 					}
@@ -253,11 +324,12 @@ func (c *Ctx) checkWG(fn *ssa.Function, wg *ssa.Alloc) (bool, string, string) {
 	// path predicate: the guard of Add
 	var pcond ssa.Value
 	pbranch := false
-	if gs := an.BlockGuards(add.Block()); len(gs) > 0 {
-		f := an.FactOf(gs[0])
-		if f.Op == token.ILLEGAL {
-			pcond, pbranch = gs[0].Cond, gs[0].Branch
+	for _, g := range an.BlockGuards(add.Block()) {
+		if g.If != nil && an.CanReach(g.If, g.If) {
+			continue // a loop condition is not a scenario
 		}
+		pcond, pbranch = g.Cond, g.Branch
+		break
 	}
 	// is Add per element (inside the loop) or up front?
 	perIter := an.CanReach(add, add)
@@ -366,7 +438,7 @@ func (c *Ctx) checkWG(fn *ssa.Function, wg *ssa.Alloc) (bool, string, string) {
 				isDirectDone := func(x ssa.Instruction) bool {
 					_, isCall := x.(*ssa.Call)
 					_, recv := isWGMethod(x, "Done")
-					return isCall && recv != nil && an.RootAlloc(recv) == ssa.Value(wg)
+					return isCall && recv != nil && sameWG(recv, wg)
 				}
 				for _, b := range f.Blocks {
 					for _, in := range b.Instrs {
@@ -443,10 +515,27 @@ func (c *Ctx) checkWG(fn *ssa.Function, wg *ssa.Alloc) (bool, string, string) {
 	// opposite scenario: no Add -> no Done may execute
 	if pcond != nil {
 		withScenario(fns, pcond, !pbranch, func() {
+			// carriers that can still be started in this scenario (their call/go site is reachable from the function entry)
+			started := map[*ssa.Function]bool{}
+			for _, f := range fns {
+				if len(f.Blocks) == 0 {
+					continue
+				}
+				reach := an.Reach(f.Blocks[0], nil)
+				reach[f.Blocks[0]] = true
+				for _, e := range events {
+					if e.fn != nil && e.in.Parent() == f && reach[e.in.Block()] {
+						started[e.fn] = true
+					}
+				}
+			}
 			for f := range carrier {
+				if !started[f] {
+					continue
+				}
 				for _, b := range f.Blocks {
 					for _, in := range b.Instrs {
-						if isDoneDefer(in, wg) && an.Reach(f.Blocks[0], nil)[b] {
+						if isDoneDefer(in, wg) && (b == f.Blocks[0] || an.Reach(f.Blocks[0], nil)[b]) {
 							bad = "when Add is skipped (" + c.condDesc(pcond, !pbranch) + ") " + shortFn(f) + " still runs Done: negative WaitGroup counter panic"
 						}
 					}
@@ -895,4 +984,37 @@ func c05TransportBlocking(c *Ctx) {
 	if n == 0 {
 		c.R.Fail("transport-blocking found no channel send in package transport")
 	}
+}
+
+
+func negOp(op token.Token) token.Token {
+	switch op {
+	case token.EQL:
+		return token.NEQ
+	case token.NEQ:
+		return token.EQL
+	case token.LSS:
+		return token.GEQ
+	case token.GEQ:
+		return token.LSS
+	case token.GTR:
+		return token.LEQ
+	case token.LEQ:
+		return token.GTR
+	}
+	return token.ILLEGAL
+}
+
+func mirrorOp(op token.Token) token.Token {
+	switch op {
+	case token.LSS:
+		return token.GTR
+	case token.GTR:
+		return token.LSS
+	case token.LEQ:
+		return token.GEQ
+	case token.GEQ:
+		return token.LEQ
+	}
+	return op
 }
